@@ -477,8 +477,9 @@ writes to the key register 0x28 at sample time `735·k` are (`FmKeySched`):
 Hence the note that the tick stream starts at tick `τ` — on any pass of the track — is keyed
 in update `k(τ) = min {k | N_{k+1} > τ}` at sample `735·k(τ)`, and keyed off in the update that
 contains `τ + on` (the synthetic `REST`) or the start of the next note, rest or the end.  The
-frequency word is written before the key-on inside the same update (`C07_pitch_value_partial`,
-`chAfter`: envelope, pitch, key-on in this order).  Extra hypotheses w.r.t. the full statement:
+last conjunct: in an update with a note the key-on is the LAST REGISTER WRITE of the update
+(`updWrs k`), so the frequency word of `C07_pitch_value_partial` — written by `update_pitch` in the
+same update whenever the pitch changed — and every other write of the update precede it.  Extra hypotheses w.r.t. the full statement:
 one channel track, FM, no `SLUR` (slurred notes: `C07_slur_update_partial`), `SegTop`; a note
 that ends inside the update it starts in is keyed on AFTER its key-off (`short-note`). -/
 theorem C07_schedule_fm_partial (d : Data) (song : Song) (tags : Vgm.Tags) (ops : List Vgm.Op)
@@ -497,16 +498,23 @@ theorem C07_schedule_fm_partial (d : Data) (song : Song) (tags : Vgm.Tags) (ops 
           (updRun d song k (playSong d song).1).ticks +
             (tempoStep (updRun d song k (playSong d song).1).tempoCounter (updRun d song k (playSong d song).1).g.tempoDelta).1 ∧
         FmKeySched (id / 3) (id % 3) (TickStream.lxInit items) (updRun d song k (playSong d song).1).ticks
-          (updRun d song (k + 1) (playSong d song).1).ticks (keysV (updOps d song (playSong d song).1 k)) := by
+          (updRun d song (k + 1) (playSong d song).1).ticks (keysV (updOps d song (playSong d song).1 k)) ∧
+        (DeliveredIn (TickStream.lxInit items) (updRun d song k (playSong d song).1).ticks
+            (updRun d song (k + 1) (playSong d song).1).ticks (fun e => e.type = ev_NOTE) →
+          (updWrs d song (playSong d song).1 k).getLast? = some (konWr (id / 3) (id % 3))) := by
   obtain ⟨K, L, h1, h2, h3, _, _, h6⟩ := exportOps_log d song tags ops hexp
   have hB : 2 * 49999 + 2 ≤ PlayerCh.settleFuel := by unfold PlayerCh.settleFuel; decide
   have hrel := TickStream.relX_init song root hs hr items hperf 49999
     (fun k outs h => by have := hfuel k outs h; unfold PlayerCh.settleFuel at this; omega) hseg
-  refine ⟨K, L, h1, h2, h3, fun k hk => ⟨(updRun_ticks d song _ k).1, ?_⟩⟩
-  exact single_fm_keys d song root id hid hsingle _ 49999 (TickStream.endOK_root song root) hB
-    (TickStream.plainHooks_of song root hplain)
-    (TickStream.hooks_of song root (fun t => t ≠ ev_SLUR) (by decide) hnoslur) _ hrel k
-    (fun j hj => h6 j (by omega))
+  refine ⟨K, L, h1, h2, h3, fun k hk => ⟨(updRun_ticks d song _ k).1, ?_, ?_⟩⟩
+  · exact single_fm_keys d song root id hid hsingle _ 49999 (TickStream.endOK_root song root) hB
+      (TickStream.plainHooks_of song root hplain)
+      (TickStream.hooks_of song root (fun t => t ≠ ev_SLUR) (by decide) hnoslur) _ hrel k
+      (fun j hj => h6 j (by omega))
+  · exact single_fm_kon_last d song root id hid hsingle _ 49999 (TickStream.endOK_root song root) hB
+      (TickStream.plainHooks_of song root hplain)
+      (TickStream.hooks_of song root (fun t => t ≠ ev_SLUR) (by decide) hnoslur) _ hrel k
+      (fun j hj => h6 j (by omega))
 
 /-- **Mid-song tempo in one statement: the table of ticks per update** (partial: one channel
 track — of any kind, FM or PSG, slurs allowed).  In a successful export of a song with one channel
